@@ -24,11 +24,46 @@ def gen_cases(tier, rng):
         cases.append({"id": "valid/%d" % s["seed"], "hex": assemble(s["settings"], s["dgs"], s["bz"]),
                       "meta": {"stream": "valid:" + s["tags"]["t"].rstrip("0123456789/").split("/")[0], "expected": s["expected"],
                                "tags": {k: v for k, v in s["tags"].items() if k != "pk"}, "events": [d.hex() for d in s["dgs"]]}})
+    cases += multiblock_cases(tier)
     return cases
+
+
+def multiblock_cases(tier):
+    """A2S_RULES replies whose bzip2 stream has several blocks (over 100 kB at level 1, over 900 kB at level 9),
+    split over Source packets; built here byte by byte, the expected response is the rule sent"""
+    import bz2, zlib
+    info = b"\xff\xff\xff\xff\x49\x11" + b"srv\x00map\x00dir\x00Game\x00" + b"\x0a\x00" + bytes([3, 16, 0, 0x64, 0x6c, 0, 1]) + b"1.0\x00" + b"\x00"
+    players = b"\xff\xff\xff\xff\x44\x00"
+    out = []
+    for tag, size, level in (("150k-l1", 150000, 1), ("240k-l1", 240000, 1), ("950k-l9", 950000, 9)) if tier != "quick" else (("150k-l1", 150000, 1), ("240k-l1", 240000, 1)):
+        value = (b"abcdefghij" * (size // 10))
+        payload = b"\x45" + (2).to_bytes(2, "little") + b"motd\x00" + value + b"\x00" + b"k\x00v\xc3\xa9\x00"
+        pkt = b"\xff\xff\xff\xff" + payload
+        comp = bz2.compress(pkt, level)
+        cut = max(1, len(comp) // 2)
+        pieces = [comp[:cut], comp[cut:]]
+        dgs = []
+        for i, piece in enumerate(pieces):
+            h = b"\xfe\xff\xff\xff" + (0x80000000 | 77).to_bytes(4, "little") + bytes([len(pieces), i]) + (1248).to_bytes(2, "little")
+            if i == 0:
+                h += len(pkt).to_bytes(4, "little") + (zlib.crc32(pkt) & 0xffffffff).to_bytes(4, "little")
+            dgs.append(h + piece)
+        bzt = bytes([1]) + len(comp).to_bytes(4, "big") + comp + len(pkt).to_bytes(4, "big") + b"\x01" + len(pkt).to_bytes(4, "big") + pkt
+        settings = bytes([10]) + (27015).to_bytes(2, "big") + b"\x00" + bytes([1, 1, 2, 0]) + enc_ts(None)
+        exp_rules = "rules:Some({\"k\":\"v\\xc3\\xa9\",\"motd\":\"" + value.decode() + "\"})"
+        out.append({"id": "multiblock/" + tag, "hex": assemble(settings, [info, players] + dgs, bzt),
+                    "meta": {"stream": "valid:compressed-multiblock", "expect_contains": exp_rules, "blocks": comp.count(b"1AY&SY")}})
+    return out
 
 
 def oracle(case, impl, side):
     res, _ = split_result(impl)
+    if "expect_contains" in case["meta"]:
+        if "PANIC" in (res or "") or res == "ABORT":
+            return ("panic", "query panicked on a valid reply: " + side[:200])
+        if not (res or "").startswith("Ok(") or case["meta"]["expect_contains"] not in res:
+            return ("decode-mismatch:rules", "a compressed rules reply of %d bzip2 blocks is not decoded: got %s" % (case["meta"]["blocks"], (res or "")[:300]))
+        return None
     exp = case["meta"]["expected"]
     if "PANIC" in (res or "") or res == "ABORT":
         return ("panic", "query panicked on a valid reply: " + side[:200])
@@ -52,5 +87,7 @@ def first_diff_field(a, b):
 
 
 def nontrivial(case, model):
+    if "expect_contains" in case["meta"]:
+        return True
     e = case["meta"]["expected"]
     return ("players:Some([{" in e) or ("rules:Some({\"" in e) or e.startswith("Err(BadGame")
